@@ -391,7 +391,8 @@ PayloadOK(e) ==
        [] e.fn = "compact" ->
             \A i \in 1..Len(e.out) : Canonical(e.out[i])     \* (before the repair of compact: or an input passed through)
        [] e.fn \in {"cell_area", "get_num_cells"} -> e.finite
-       [] OTHER -> TRUE
+       [] e.fn = "u64_to_hex" -> TRUE                    \* the string itself is judged by HexFmtOK (C05)
+       [] OTHER -> FALSE                                 \* an API function this relation does not know
 
 CallOK(e) ==
   /\ e.outcome \in {"ok", "err"}                        \* never panic / abort / oom / timeout
